@@ -74,11 +74,11 @@ macro_rules! inc_lowmem {
         }
     };
 }
-//@ h=inc_lm_48 props=C07,C17 cfgs=K3 tier=q t=300 | funcs: FuzzyHashBucketsData<48>::increment with opt-low-memory-buckets | bound: 48 symbolic counters, ANY index 0..=255 (out-of-range dropped, never out of bounds)
+//@ h=inc_lm_48 props=C01,C07,C17 cfgs=K3 tier=q t=300 | funcs: FuzzyHashBucketsData<48>::increment with opt-low-memory-buckets | bound: 48 symbolic counters, ANY index 0..=255 (out-of-range dropped, never out of bounds)
 inc_lowmem!(inc_lm_48, 48);
-//@ h=inc_lm_128 props=C07,C17 cfgs=K3 tier=q t=300 | funcs: FuzzyHashBucketsData<128>::increment with opt-low-memory-buckets | bound: 128 symbolic counters, any index
+//@ h=inc_lm_128 props=C01,C07,C17 cfgs=K3 tier=q t=300 | funcs: FuzzyHashBucketsData<128>::increment with opt-low-memory-buckets | bound: 128 symbolic counters, any index
 inc_lowmem!(inc_lm_128, 128);
-//@ h=inc_lm_256 props=C07,C17 cfgs=K3 tier=q t=300 | funcs: FuzzyHashBucketsData<256>::increment with opt-low-memory-buckets | bound: 256 symbolic counters, any index
+//@ h=inc_lm_256 props=C01,C07,C17 cfgs=K3 tier=q t=300 | funcs: FuzzyHashBucketsData<256>::increment with opt-low-memory-buckets | bound: 256 symbolic counters, any index
 inc_lowmem!(inc_lm_256, 256);
 
 //@ h=ck_update_1 props=C01,C15 cfgs=K0 tier=q t=900 | funcs: <FuzzyHashChecksumData<1,48|128|256> as InnerChecksum>::update with the real mapping functions | bound: any checksum state and byte pair: == reference Pearson chain with salt 0; 48-bucket result <= 48 (so generated Short hashes pass the strict parser)
